@@ -827,7 +827,7 @@ def run(ctx):
     # subbounds, start/end times, propagate_by, acceptance diagram) on the cascade model of this check, SVG slit
     # geometry (spec/chopper/Growth_*.tla; deviations are GROWTH-FINDINGs, not violations of C11)
     from .. import lib_growth_chopper
-    lib_growth_chopper.run(ctx)
+    ctx.run_growth(lib_growth_chopper.run, 'lib_growth_chopper')
 
 
 META = {
